@@ -1374,6 +1374,10 @@ class Connection(object):
                         raise ProtocolError(
                             "The requested compression type (%s) is not supported by the Cassandra server at %s"
                             % (self.compression, self.endpoint))
+                    if self.compression not in locally_supported_compressions:
+                        raise ProtocolError(
+                            "The requested compression type (%s) is not available locally; is the module installed?"
+                            % (self.compression,))
                     compression_type = self.compression
                 else:
                     # our locally supported compressions are ordered to prefer
